@@ -16,6 +16,7 @@ import (
 
 	"github.com/johannesboyne/gofakes3"
 	"github.com/johannesboyne/gofakes3/internal/s3io"
+	"github.com/johannesboyne/gofakes3/internal/verifhook"
 	"github.com/spf13/afero"
 )
 
@@ -364,6 +365,7 @@ func (db *SingleBucketBackend) PutObject(
 	if err != nil {
 		return result, err
 	}
+	verifhook.Gate("s3afero.PutObject.afterMerge")
 
 	db.lock.Lock()
 	defer db.lock.Unlock()
